@@ -15,6 +15,17 @@ RULE = ('sequences of operations (reads of raw byte chunks cut at arbitrary offs
         'send families run on fake OS endpoints; delivered texts, bytes on the wire, log events (writes and flushes, in order) and return values compared with the model; distinct = distinct model inputs')
 
 
+def flat_ops(ops):
+    """writelines(seq) is the write of each item: the oracles and the return-value bookkeeping see it that way"""
+    out = []
+    for o in ops:
+        if o[0] == 'writelines':
+            out += [('write', is_str, t) for is_str, t in o[2]]
+        else:
+            out.append(o)
+    return out
+
+
 def corr_cases(ctx, pexpect, n, setlogs=False):
     rng = ctx.rng
     cases = []
@@ -38,18 +49,18 @@ def corr_cases(ctx, pexpect, n, setlogs=False):
         model_ops = list(ops)
         # write() returns None: the model returns the count, compare only where the API returns one
         exp_rets = []
-        for o, r in zip([o for o in ops if o[0] not in ('read', 'setlogs')], rets):
+        for o, r in zip([o for o in flat_ops(ops) if o[0] not in ('read', 'setlogs')], rets):
             exp_rets.append(r)
         inp = '(%s, (%s, %s, %s), %s, %s)' % (cbool(uni), cbool(logs[0]), cbool(logs[1]), cbool(logs[2]), cnat(which),
                                              IO.coq_ops(model_ops, control_bytes))
-        results.append({'which': which, 'unicode': uni, 'logs': logs, 'ops': ops, 'delivered': delivered, 'wire': wire,
+        results.append({'which': which, 'unicode': uni, 'logs': logs, 'ops': flat_ops(ops), 'delivered': delivered, 'wire': wire,
                         'sink': sink, 'rets': rets, 'raw': raw, 'control_bytes': control_bytes})
         # returns: replace None (write) by the byte count the model computes -> compare as model value by re-deriving
         fixed_rets = []
         wi = 0
-        for o, r in zip([o for o in ops if o[0] not in ('read', 'setlogs')], rets):
+        for o, r in zip([o for o in flat_ops(ops) if o[0] not in ('read', 'setlogs')], rets):
             if r is None:
-                fixed_rets.append(len(wire[wi]))
+                fixed_rets.append(len(wire[wi]) if wi < len(wire) else -1)          # -1: nothing reached the wire for this call
             else:
                 fixed_rets.append(r)
             wi += 2 if (o[0] == 'sendline' and which == 2) else 1
